@@ -482,6 +482,64 @@ def check(ctx):
         ctx.violation('C07.R4', ber.rel, dm, '%s::MembersType.decode_members' % ber.rel, 'with ignore_missing a missing mandatory addition must not raise', stmt='ignore_missing handling')
 
 
+    # ---- R7: AUTOMATIC TAGS and a second extension marker.  A version-2 type inserts its additions between the two markers; the components after the second marker
+    #      belong to the extension root and must keep their tags, or BER / DER of the two versions do not understand each other.  The tagging pass is evaluated
+    #      (sa/evalexpr.py, on descriptor dictionaries built here) for a version-1 and a version-2 member list: every root component has the same number in both.
+    ctx.rule('C07.R7', 'automatic tag numbers of the root components do not depend on the extension additions present (tagging pass evaluated on version-1 / version-2 member lists)')
+    from .. import evalexpr as _ev7
+    tf = model.mod('asn1tools/codecs/compiler.py').classes['Compiler'].find_method('pre_process_tags_type_members')
+    if tf is None:
+        ctx.instance('C07.R7', 'Compiler.pre_process_tags_type_members', 'undecided', 'the tagging pass was not found under that name', nontrivial=False)
+    else:
+        tf = tf[1]
+        tp = [p_ for p_ in flow.param_names(tf) if p_ != 'self']
+        r_ = tf._mod.resolve_name('EXTENSION_MARKER')
+        marker = None
+        if isinstance(r_, tuple) and r_[0] == 'const' and isinstance(r_[1], ast.Constant):
+            marker = r_[1].value
+
+        def numbers(members):
+            td = {'type': 'SEQUENCE', 'members': members}
+            _ev7.run_function(tf, {tp[0]: td, tp[1]: 'AUTOMATIC', tp[2]: 'M'}, skip_calls=True)
+            out = {}
+
+            def walk(ms):
+                for x_ in ms:
+                    if isinstance(x_, list):
+                        walk(x_)
+                    elif isinstance(x_, dict):
+                        out[x_['name']] = (x_.get('tag') or {}).get('number')
+            walk(td['members'])
+            return out
+
+        def mk(*names):
+            return [marker if n_ == '...' else ([{'name': g_, 'type': 'INTEGER'} for g_ in n_] if isinstance(n_, tuple) else {'name': n_, 'type': 'INTEGER'}) for n_ in names]
+        cases7 = [(mk('a', '...', '...', 'z'), mk('a', '...', 'q', '...', 'z'), ('a', 'z')),
+                  (mk('a', 'b', '...', '...', 'y', 'z'), mk('a', 'b', '...', 'p', ('g1', 'g2'), '...', 'y', 'z'), ('a', 'b', 'y', 'z')),
+                  (mk('a', '...'), mk('a', '...', 'p', 'q'), ('a',)),
+                  (mk('a', '...', 'p'), mk('a', '...', 'p', ('g1',), 'q'), ('a', 'p'))]
+        bad7 = None
+        n7ok = 0
+        und7 = ''
+        try:
+            for v1_, v2_, roots_ in cases7:
+                n1_, n2_ = numbers(v1_), numbers(v2_)
+                for nm_ in roots_:
+                    if n1_.get(nm_) != n2_.get(nm_) or n1_.get(nm_) is None:
+                        bad7 = bad7 or (nm_, n1_.get(nm_), n2_.get(nm_), [x_['name'] if isinstance(x_, dict) else ('[[..]]' if isinstance(x_, list) else '...') for x_ in v2_])
+                    else:
+                        n7ok += 1
+        except (_ev7.Unsupported, _ev7.Raised, _ev7.PyRaise, KeyError, TypeError) as e_:
+            und7 = str(e_)[:100]
+        verdict7 = 'undecided' if und7 else ('VIOLATION' if bad7 else 'ok')
+        ctx.instance('C07.R7', '%s evaluated on %d version pairs (%d root components compared)' % (Model.qual(tf), len(cases7), n7ok + (1 if bad7 else 0)), verdict7, und7,
+                     nontrivial=not und7, node=tf, file=tf._mod.rel)
+        if bad7 and not und7:
+            ctx.violation('C07.R7', tf._mod.rel, tf, Model.qual(tf),
+                          'with AUTOMATIC TAGS the root component `%s` is numbered [%s] in version 1 and [%s] in version 2 { %s }: the numbers are given in textual order, so additions '
+                          'inserted before the second extension marker shift the tags of the components after it, and BER / DER encodings of one version are rejected by the other '
+                          '(DecodeTagError) -- X.680 25.7 numbers the extension root first' % (bad7[0], bad7[1], bad7[2], ', '.join(bad7[3])), stmt='automatic tags in textual order')
+
 PER = RELS['per']
 OER = RELS['oer']
 XER = RELS['xer']
